@@ -1200,14 +1200,14 @@ def evaluate__substring_functions(self: XPathFunction, context: ta.ContextType =
         collation = self.get_argument(context, 2, required=True, cls=str)
 
     with CollationManager(collation, self) as manager:
-        index = manager.find(arg1, arg2)
+        start, end = manager.find_match(arg1, arg2)
 
-    if index < 0:
+    if start < 0:
         return ''
     if self.symbol == 'substring-before':
-        return arg1[:index]
+        return arg1[:start]
     else:
-        return arg1[index + len(arg2):]
+        return arg1[end:]
 
 
 ###
